@@ -170,7 +170,20 @@ class Acc:
             raise
         except RecursionError:
             raise
-        except Exception as exc:  # an exception escaping a check function is a harness bug
+        except Exception as exc:
+            # An exception that passed through library code is the library failing on a
+            # generated input (all generators are sound): a violation, bucketed by exception
+            # type and innermost library frame.  One raised purely in harness code is a harness bug.
+            frames = traceback.extract_tb(exc.__traceback__)
+            libframes = [f for f in frames if os.path.realpath(f.filename).startswith(os.path.realpath(REPO) + os.sep)]
+            if libframes:
+                inner = libframes[-1]
+                out = BAD(
+                    f"lib_exception_{type(exc).__name__}_{inner.name}",
+                    {"exc": f"{type(exc).__name__}: {exc}", "where": f"{os.path.relpath(inner.filename, REPO)}:{inner.lineno}"},
+                )
+                self.account(check, case, out)
+                return out
             raise HarnessError(
                 f"check {check} raised {type(exc).__name__}: {exc} on case {jdump(case)[:400]}\n"
                 + traceback.format_exc()
